@@ -56,8 +56,31 @@ def rnd_graph(rng, nmax):
     return nx.relabel_nodes(g, dict(zip(sorted(g.nodes), keys)))
 
 
+def decorate(g, case):
+    """attributes a molecule graph may carry and the layout has no business with: bond orders (zero-order bonds of coarse
+    graphs included — they are bonds of the graph like any other) and stored 3D coordinates (all atoms on the z axis, the
+    worst projection, or anywhere)"""
+    decor = case.get('decor')
+    if not decor:
+        return g
+    import random
+    r = random.Random(case.get('seed', 0) * 7919 + len(g))
+    g = g.copy()
+    if 'orders' in decor:
+        for k, (a, c) in enumerate(g.edges):
+            g.edges[a, c]['order'] = 0 if (k == 0 or r.random() < 0.25) else r.choice([1, 1, 2, 1.5, 3])
+    if 'positions-z' in decor:
+        for k, n in enumerate(g.nodes):
+            g.nodes[n]['position'] = np.array([0.0, 0.0, 1.5 * k])
+    elif 'positions' in decor:
+        for n in g.nodes:
+            g.nodes[n]['position'] = np.array([r.uniform(-3, 3), r.uniform(-3, 3), r.uniform(-3, 3)])
+    return g
+
+
 def layout_case(ctx, suite, g, b, case):
     import cgsmiles.graph_layout as gl
+    g = decorate(g, case)
     captured = {}
     real_kk = gl.nx.kamada_kawai_layout
 
@@ -241,6 +264,9 @@ def run(ctx):
             # the drawing aligned with an axis (as draw_molecule does): the scale is still the requested one
             case['align'] = rng.choice([[1.0, 0.0], [0.0, 1.0], [3.0, 2.0], [0.3, 0.4]])
             ctx.feature('aligned')
+        if i % 5 in (1, 2):
+            case['decor'] = [['orders'], ['positions-z'], ['orders', 'positions'], ['positions'], ['orders', 'positions-z']][(i // 5) % 5]
+            ctx.feature('decorated:' + '+'.join(case['decor']))
         layout_case(ctx, 'nxgraph', g, b, case)
         # relabeling: the guarantees hold for every labelling
         perm = list(g.nodes)
